@@ -57,7 +57,6 @@ package lnd
 import (
 	"bytes"
 	"context"
-	"crypto/sha256"
 	"encoding/base64"
 	"encoding/hex"
 	"errors"
@@ -231,7 +230,7 @@ func vwTxArgs(tx *wire.MsgTx, sigScript, witness, outputs bool) []interface{} {
 }
 
 func vwSerialize(tx *wire.MsgTx, w io.Writer) error {
-	blob := []byte(zzverif.UFStr("txser", vwTxArgs(tx, true, true, true)...))
+	blob := vwUFBytes("txser", vwRawTxLen, vwTxArgs(tx, true, true, true)...)
 	snap := &wire.MsgTx{}
 	vwCopyTx(snap, tx)
 	vw.txs = append(vw.txs, vwTxBlob{blob, snap})
@@ -240,9 +239,27 @@ func vwSerialize(tx *wire.MsgTx, w io.Writer) error {
 }
 
 func vwTxHash(tx *wire.MsgTx) chainhash.Hash {
-	// the sha256 model is itself uninterpreted; it only supplies the 32-byte length
-	return chainhash.Hash(sha256.Sum256([]byte(zzverif.UFStr("txid", vwTxArgs(tx, true, false, true)...))))
+	var h chainhash.Hash
+	copy(h[:], vwUFBytes("txid", 32, vwTxArgs(tx, true, false, true)...))
+	return h
 }
+
+// vwUFBytes: an uninterpreted function with a byte-string value of fixed length n (engine
+// intrinsic, engine/symex/intrinsics_wallet.go).  Only used by the symbolic-side library model.
+func vwUFBytes(name string, n int, args ...interface{}) []byte {
+	b := []byte(zzverif.UFStr(name, args...))
+	for len(b) < n {
+		b = append(b, 0)
+	}
+	return b[:n]
+}
+
+// Lengths of the opaque blobs on the symbolic side (tokens: nothing depends on the numbers; fixed
+// lengths keep the string solver away from length arithmetic).
+const (
+	vwRawTxLen = 100
+	vwPsbtLen  = 120
+)
 
 func vwHashString(h chainhash.Hash) string { return zzverif.UFStr("hashstr", string(h[:])) }
 
@@ -374,7 +391,7 @@ func vwNewTxSigHashes(tx *wire.MsgTx, f txscript.PrevOutputFetcher) *txscript.Tx
 
 func vwCalcWitnessSigHash(script []byte, sh *txscript.TxSigHashes, ht txscript.SigHashType, tx *wire.MsgTx, idx int, amt int64) ([]byte, error) {
 	a := append([]interface{}{string(script), uint32(ht), idx, amt}, vwTxArgs(tx, false, false, true)...)
-	return []byte(zzverif.UFStr("sighash", a...)), nil
+	return vwUFBytes("sighash", 32, a...), nil
 }
 
 func vwInstall() {
@@ -576,7 +593,7 @@ func (k *vwKit) FundPsbt(ctx context.Context, in *walletrpc.FundPsbtRequest, opt
 		pkt.Inputs = append(pkt.Inputs, psbt.PInput{WitnessUtxo: wire.NewTxOut(v, zzverif.Bytes("fund.in_script", 23))})
 	}
 	pkt.Outputs = make([]psbt.POutput, n)
-	blob := zzverif.Bytes("fund.psbt", -1)
+	blob := zzverif.Bytes("fund.psbt", vwPsbtLen)
 	if !zzverif.Symbolic() {
 		blob = vwSerializePsbt(pkt)
 	}
@@ -618,8 +635,8 @@ func (k *vwKit) FinalizePsbt(ctx context.Context, in *walletrpc.FinalizePsbtRequ
 		final.TxIn[i].Witness = wire.TxWitness{[]byte{0x30}}
 		signed.Inputs = append(signed.Inputs, pin)
 	}
-	raw := zzverif.Bytes("finalize.rawtx", -1)
-	sblob := zzverif.Bytes("finalize.psbt", -1)
+	raw := zzverif.Bytes("finalize.rawtx", vwRawTxLen)
+	sblob := zzverif.Bytes("finalize.psbt", vwPsbtLen)
 	if !zzverif.Symbolic() {
 		raw = vwSerializeTx(final)
 		sblob = vwSerializePsbt(signed)
@@ -821,7 +838,7 @@ func vwOpeningTx(w *vwWorld) (string, int, *wire.MsgTx) {
 		}
 		tx.AddTxOut(wire.NewTxOut(v, zzverif.Bytes("opening.other_script", 22)))
 	}
-	blob := zzverif.Bytes("opening.rawtx", -1)
+	blob := zzverif.Bytes("opening.rawtx", vwRawTxLen)
 	if !zzverif.Symbolic() {
 		blob = vwSerializeTx(tx)
 	}
